@@ -27,6 +27,9 @@
 Require Import Arith Bool String List.
 From TK Require Import Mat_Sums Mat_Core Mat_EigSelect EigSelect.
 Import ListNotations.
+(* gen/EigSelect.v opens string_scope globally: put list_scope back on top *)
+Local Open Scope string_scope.
+Local Open Scope list_scope.
 
 Inductive lres (A : Type) : Type :=
 | LOk (a : A)
@@ -141,8 +144,6 @@ End LapModel.
 (*  says how many are skipped.  Only `.first` (eigenvectors) is returned   *)
 (*  by the method, so the eigenvalue selector (defect F7) is not used here.*)
 (* ---------------------------------------------------------------------- *)
-Local Open Scope string_scope.
-
 Definition find_site (file fn : String.string) (largest : bool) : option branch :=
   find (fun b => String.eqb (b_file b) file && String.eqb (b_fn b) fn
                  && Bool.eqb (b_largest b) largest) eig_table.
